@@ -134,6 +134,44 @@ def run(run, replay=None):
         got = sum(c for _, w, c, _ in (d or {"frequencies": []})["frequencies"] if w == "車")
         if got != confirmed[0]:
             fails.append(("lost-update", {"kind": "lost-update"}, dict(o, learned_count=got)))
+    # registrations acknowledged one after the other take effect in that order: when they wait together in the updater's
+    # queue the answers are those of a server that received them one at a time (each applied before the next is sent), and
+    # those of a server restarted from its own user.dic
+    import os
+    seq = [("こうか", ["効果", "硬貨", "高価", "校歌"]), ("きしゃ", ["記者", "汽車", "貴社"])]
+
+    def register_all(server, settle):
+        n_ = 0
+        for rd, ws in seq:
+            for w_ in ws:
+                server.rpc("RegisterWord", {"kind": "CommonNoun", "reading": rd, "word": w_}, timeout=10.0)
+                n_ += 1
+                if settle:
+                    S.wait_until(lambda: (lambda d_: d_ is not None and len(d_["user_entries"]) >= n_)(server.dump()), 10.0)
+        S.wait_until(lambda: (lambda d_: d_ is not None and len(d_["user_entries"]) >= n_)(server.dump()), 15.0)
+        return {rd: S.texts(server.conv(rd, timeout=10.0)) or [] for rd, _ in seq}
+    ref = S.Server(bindir, dic, None, workers=4)
+    try:
+        reference = register_all(ref, True) if ref.wait_listening() else None
+    finally:
+        ref.stop()
+    ud = os.path.join(wd, "order-user")
+    srv = S.Server(bindir, dic, ud, workers=4, save_secs=1, env={"CHOKAN_VERIF_DELAY_UPDATER": "200"})
+    try:
+        if reference is not None and srv.wait_listening():
+            live = register_all(srv, False)
+            o = {"registered_in_order": seq, "one_at_a_time_reference": reference, "queued_together": live}
+            if live != reference:
+                fails.append(("registration-order", {"kind": "registration-order"}, o))
+            time.sleep(2.5)
+            srv.stop()
+            srv = S.Server(bindir, dic, ud, workers=4, save_secs=1)
+            if srv.wait_listening():
+                again = {rd: S.texts(srv.conv(rd, timeout=10.0)) or [] for rd, _ in seq}
+                if again != live:
+                    fails.append(("registration-order", {"kind": "registration-order", "when": "restart"}, dict(o, after_restart=again)))
+    finally:
+        srv.stop()
     for kind, key, w in fails[:6]:
         run.failures.append(cl.Failure("oracle", "server violates C14 (%s): %s" % (kind, json.dumps(w, ensure_ascii=False)[:300]), witness=w, key=key))
     run.cov.update({"evaluations": sum(o["conversions"] + o["confirmations"] for o in obs), "distinct_nontrivial": len(obs),
@@ -141,6 +179,7 @@ def run(run, replay=None):
                             "convert the six conjugated forms of a verb registered meanwhile, the other half run conversion+confirmation "
                             "pairs; checked: every request completes (10 s watchdog), forms become visible together and stay visible, "
                             "nothing is visible before the registration was requested, the learned count equals the acknowledged "
-                            "confirmations. every configuration is non-trivial",
+                            "confirmations; plus homophones registered one after the other while the updater is delayed: the answers equal those of a "
+                            "server given the same registrations one at a time, and those after a restart. every configuration is non-trivial",
                     "samples": obs[:2], "oracle_failures": len(fails)})
     shutil.rmtree(wd, ignore_errors=True)
